@@ -379,6 +379,10 @@ class RequestHandler:
         ``Date`` header).
 
         """
+        # Unlike `add_header`, this goes through ``HTTPHeaders.__setitem__``,
+        # which does not validate the name.
+        if not httputil._ABNF.field_name.fullmatch(name):
+            raise ValueError("Unsafe header name %r" % name)
         self._headers[name] = self._convert_header_value(value)
 
     def add_header(self, name: str, value: _HeaderTypes) -> None:
